@@ -34,7 +34,11 @@ def run(c):
     rt.replay_witnesses(c, oracle)
     cls = rt.known_by(c, [('F8', rt.size_unstable), ('F9', rt.f9_territory)])
     cases, dis, stats = rt.run_rt(c, oracle, n, k, known_classifier=cls)
-    rt.decide(c, ob, dis)
+    # arrays whose elements are padded (alignment > size), tight buffers: where the size pass and the
+    # serialise pass can drift apart
+    cases2, dis2, stats2 = rt.run_rt(c, oracle, n, k, known_classifier=cls, label='H-runtime (padded arrays)',
+                                     profile='rt-pad', seed_base=500)
+    rt.decide(c, ob, dis + dis2)
     if c.tier == 'thorough' and ob['ok']:
         ok, log = c.leanchecker(['BVM.Props.C02'])
         if not ok:
